@@ -54,7 +54,23 @@ Clauses
                         show.tables, show.pk — swept after session prelude + template + postlude in whole-statement
                         spellings (see sweep_labels).
 
+  C02.verbatim.<surface> absolute, histories in ONE session: a statement reports its double-quoted identifiers exactly
+                        as IT writes them, whatever the session executed before. VERBATIM_TEMPLATES (queries whose
+                        quoted column aliases are slots for the letter case) x slot spellings (quick: every slot
+                        lower / UPPER / Capitalised / aLtErNaTiNg, one slot UPPER; thorough: all 4^slots) x every
+                        ordered pair of two different spellings (thorough: + A B A and A B C over the whole-statement
+                        spellings) x ARRANGEMENTS (the same cursor, another cursor of the connection, another
+                        connection of the instance; tuple cursor and DictCursor, also mixed) [thorough: x another
+                        query / a SET between the statements, x everything else in the statements in UPPER]. After
+                        EVERY statement of the history each surface is compared with the spelling written in that
+                        statement (mc/ref/sf_ident.vreported): description (read before and after fetching),
+                        dictkeys, pandas (fetch_pandas_all columns), describe (cursor.describe of the same text).
+                        Each history runs on connections of its own; the histories of a work item share the instance.
+
 Not demanded
+  * in C02.verbatim: only names the statement defines itself are slots (a quoted reference to an existing object in
+    another case is the distinctness of "t" and T, below); a surface that raises or lists other columns altogether is
+    counted (`verbatim_surfaces_not_judged`), not judged: that is not a matter of letter case;
   * that "t" and T are distinct objects (DuckDB is case-insensitive; the statement does not claim distinctness);
   * error message text (it echoes user text); only class, errno, sqlstate are compared;
   * the names of result columns that are expressions without alias (Snowflake derives them from the expression text);
@@ -73,6 +89,8 @@ Classes   C02.respell / C02.quoted: `stmt=<kind>,tok=<token>,form=<upper|capital
           (left to right) whose single flip already changes the outcome and which is flipped in the failing spelling;
           `tok=<combination>` when no single flip explains it. C02.report: `kind=<case|lower|missing>,name=<...>[,stmt=<kind>]
           [,attr=<database|schema>][,session=<flavour>][,via=identifier()]` (via: a name the statement passes as a string).
+          C02.verbatim: `stmt=<template>,cursor=<same|other|conn>,step=<first|later>[,spelling=seen-before]
+          [,between=<query|set>]` (seen-before: the history executed this very spelling earlier).
 """
 from __future__ import annotations
 
@@ -1302,6 +1320,224 @@ def _emit(acc, clause_root, tpl, groups, ref_text, ref_of=None):
                 acc.member(f"{clause_root}.{f}", prefix, bool(df) and df[0] == f)
 
 
+# ---- clause 4: quoted identifiers are reported as written, whatever the session executed before -----------------------
+class VT:
+    """A verbatim template (mc.ref.sf_ident section 4): a query whose quoted identifiers "<word>" are slots for the
+    letter case. cols: the result columns as the statement spells them (slots as in sql)."""
+
+    def __init__(self, tid, sql, cols, params=None):
+        self.id, self.sql, self.cols, self.params = tid, sql, list(cols), params
+        self.slots = R.vslots(sql)
+
+
+# Only names the statement DEFINES ITSELF (column aliases) are slots: a quoted reference to an existing object in
+# another case is "are "t" and T distinct objects", which is not demanded. All are queries: they leave the instance
+# as it is, so the histories of one work item share one instance (each history on connections of its own).
+VERBATIM_TEMPLATES = [
+    VT("v_alias", 'select k as "<key>", v as "<val>" from t order by k', ['"<key>"', '"<val>"']),
+    VT("v_aggregate", 'select count(*) as "<total>", sum(k) as "<total_k>" from t', ['"<total>"', '"<total_k>"']),
+    VT("v_alias_no_as", 'select k "<key>", v unq from t order by 1', ['"<key>"', "unq"]),
+    VT("v_constant", 'select 1 as "<one>"', ['"<one>"']),
+    VT("v_cte", 'with c as (select k as "<ck>" from t) select "<ck>" from c order by 1', ['"<ck>"']),
+    VT("v_subquery_star", 'select * from (select k as "<sk>", v as "<sv>" from t) order by 1', ['"<sk>"', '"<sv>"']),
+    VT("v_union", 'select k as "<uk>" from t union all select k from s order by 1', ['"<uk>"']),
+    VT("v_join", 'select a.k as "<left_k>", b.k as "<right_k>" from t a join s b on a.k = b.k order by 1',
+       ['"<left_k>"', '"<right_k>"']),
+    VT("v_values", 'select column1 as "<c_one>" from values (1), (2)', ['"<c_one>"']),
+    VT("v_quoted_source", 'select "cA" as "<ca>", b as "<bee>" from "qT"', ['"<ca>"', '"<bee>"']),
+    VT("v_bound", 'select %s as "<bound>", k from t order by k', ['"<bound>"', "k"], params=(5,)),
+]
+VTPL = {t.id: t for t in VERBATIM_TEMPLATES}
+assert len(VTPL) == len(VERBATIM_TEMPLATES)
+
+# where the statements of a history run: (relation of a statement's cursor to the previous statement's, cursor class
+# per step: t = tuple cursor, d = DictCursor, cycled). same = one cursor for the whole history; other = a new cursor
+# of the same connection for every statement; conn = a new connection to the same instance for every statement.
+ARRANGEMENTS = {
+    "same-tuple": ("same", "t"),
+    "same-dict": ("same", "d"),
+    "other-tuple-dict": ("other", "td"),
+    "other-dict-tuple": ("other", "dt"),
+    "conn-dict": ("conn", "d"),
+    # thorough only
+    "other-tuple-tuple": ("other", "t"),
+    "other-dict-dict": ("other", "d"),
+    "conn-tuple": ("conn", "t"),
+}
+QUICK_ARRANGEMENTS = ("same-tuple", "same-dict", "other-tuple-dict", "other-dict-tuple", "conn-dict")
+# thorough: what else the session does between two statements of a history (on a cursor of its own of the first
+# connection), and the case of everything else in the statements (keywords, unquoted names) per step, cycled
+BETWEEN = {"none": None, "query": "select 1 as x", "set": "set pv = 7"}
+VARIANTS_PLAIN = ("none", "l")
+VARIANTS_MORE = (("query", "l"), ("set", "l"), ("none", "u"), ("none", "lu"))
+VSURFACES = ("description", "dictkeys", "pandas", "describe")
+
+
+def _vsql(vt: VT, forms, rest: str) -> str:
+    sql = R.vrender(vt.sql, forms)
+    if rest == "l":
+        return sql
+    # the pyformat placeholder %s is not SQL text: it is kept, the pieces around it are re-spelled
+    return "%s".join(R.render(R.lex(piece), rest) for piece in sql.split("%s"))
+
+
+def vplan(tier):
+    """-> [(template id, arrangement, between, rest forms, [history])], history = tuple of slot-form assignments"""
+    items = []
+    for vt in VERBATIM_TEMPLATES:
+        sp = R.vspellings(len(vt.slots), tier)
+        hist = R.vhistories(sp, tier)
+        whole_pairs = [h for h in hist if len(h) == 2 and all(len(set(s)) == 1 for s in h)]
+        for arr in (QUICK_ARRANGEMENTS if tier == "quick" else tuple(ARRANGEMENTS)):
+            items.append((vt.id, arr, *VARIANTS_PLAIN, hist))
+            if tier != "quick":
+                for between, rest in VARIANTS_MORE:
+                    items.append((vt.id, arr, between, rest, whole_pairs))
+    return items
+
+
+def _names_of(fn):
+    try:
+        return tuple(str(x) for x in fn())
+    except Exception as e:  # noqa: BLE001
+        return ("<raise>", type(e).__name__)
+
+
+def vstep(cur, is_dict: bool, sql: str, params):
+    """one statement of a history -> {surface: names reported}; surfaces in the order a client reads them: description
+    before fetching, the rows (DictCursor keys), fetch_pandas_all (does not consume), description again,
+    cursor.describe() of the same text last (it executes on the cursor)."""
+    obs = {}
+    try:
+        cur.execute(sql, params)
+    except Exception as e:  # noqa: BLE001
+        return {"execute": ("<raise>", type(e).__name__, str(e)[:120])}
+    d1 = _names_of(lambda: [c.name for c in cur.description])
+    try:
+        rows = cur.fetchall()
+    except Exception as e:  # noqa: BLE001
+        rows = ("<raise>", type(e).__name__)
+    if is_dict:
+        obs["dictkeys"] = tuple(rows[0].keys()) if isinstance(rows, list) and rows else None
+    obs["pandas"] = _names_of(lambda: cur.fetch_pandas_all().columns)
+    d2 = _names_of(lambda: [c.name for c in cur.description])
+    obs["description"] = d1 if d1 == d2 else ("<two reads differ>", d1, d2)
+    obs["describe"] = _names_of(lambda: [c.name for c in cur.describe(sql, params)])
+    return obs
+
+
+def vhistory(fs, vt: VT, arr: str, between: str, rest: str, hist):
+    """Execute one history on connections of its own. -> [(step index, sql, expected, {surface: reported})]"""
+    from snowflake.connector.cursor import DictCursor
+
+    rel, classes = ARRANGEMENTS[arr]
+    conns = [fs.connect(database=DB, schema=SCHEMA)]
+    cur = None
+    out = []
+    try:
+        for n, forms in enumerate(hist):
+            is_dict = classes[n % len(classes)] == "d"
+            if n and BETWEEN[between]:
+                conns[0].cursor().execute(BETWEEN[between])
+            if rel == "conn" and n:
+                conns.append(fs.connect(database=DB, schema=SCHEMA))
+            if cur is None or rel != "same":
+                cur = conns[-1].cursor(DictCursor) if is_dict else conns[-1].cursor()
+            sql = _vsql(vt, forms, rest[n % len(rest)])
+            out.append((n, sql, R.vreported(vt.cols, vt.sql, forms), vstep(cur, is_dict, sql, vt.params)))
+    finally:
+        for c in conns:
+            c.close()
+    return out
+
+
+def vclass(vt: VT, arr: str, between: str, n: int, hist) -> str:
+    cls = f"stmt={vt.id},cursor={ARRANGEMENTS[arr][0]},step={'first' if n == 0 else 'later'}"
+    if n and hist[n] in hist[:n]:
+        cls += ",spelling=seen-before"
+    if n and between != "none":
+        cls += f",between={between}"
+    return cls
+
+
+def vwork(item, acc: core.Acc, tier):
+    """All histories of one (template, arrangement, variant) on one instance. -> [(clause surface, class, failed,
+    detail, replay)] for every judged surface of every step."""
+    import fakesnow.instance as inst
+
+    tid, arr, between, rest, hists = item
+    vt = VTPL[tid]
+    fs = inst.FakeSnow()
+    acc.count("instances")
+    out = []
+    try:
+        conn = fs.connect(database=DB, schema=SCHEMA)
+        cur = conn.cursor()
+        for p, _fx in PRELUDE:
+            cur.execute(p)
+        for hist in hists:
+            steps = vhistory(fs, vt, arr, between, rest, hist)
+            acc.count("traces")
+            acc.count("verbatim_histories")
+            acc.nontrivial(("verbatim", tid, arr, between, rest, hist))
+            for n, sql, exp, obs in steps:
+                acc.count("evaluations")
+                acc.count("verbatim_statements")
+                acc.obs((tid, arr, between, rest, hist, n, sorted(obs.items())))
+                acc.outcome(("verbatim", tid, core.h(sorted(obs.items()))))
+                cls = vclass(vt, arr, between, n, hist)
+                for surface in VSURFACES:
+                    if surface not in obs:
+                        continue
+                    got = obs[surface]
+                    if got is None:
+                        continue
+                    if got != exp and not _same_ci(got, exp):
+                        # raised, or other columns altogether: not a matter of letter case, not demanded here
+                        acc.count("verbatim_surfaces_not_judged")
+                        acc.note(f"verbatim: {surface} of {tid} not judged: {_short(got, 120)}")
+                        continue
+                    acc.count("verbatim_surfaces_judged")
+                    failed = got != exp
+                    det = None
+                    if failed:
+                        det = {"template": tid, "arrangement": arr, "between": between, "rest": rest,
+                               "history": [_vsql(vt, f, rest[i % len(rest)]) for i, f in enumerate(hist)],
+                               "step": n, "sql": sql, "expected": exp, "reported": got}
+                    rep = {"verbatim": True, "template": tid, "arrangement": arr, "between": between, "rest": rest,
+                           "history": [list(f) for f in hist]}
+                    out.append((surface, cls, failed, det, rep if failed else None))
+                if "execute" in obs:
+                    acc.count("verbatim_statements_failed")
+                    acc.note(f"verbatim: statement of {tid} failed: {_short(obs['execute'], 160)}")
+    finally:
+        import contextlib
+
+        with contextlib.suppress(Exception):
+            fs.duck_conn.close()
+    return out
+
+
+def run_verbatim(ctx: core.Ctx):
+    items = vplan(ctx.tier)
+    vorder = {t.id: i for i, t in enumerate(VERBATIM_TEMPLATES)}
+    aorder = {a: i for i, a in enumerate(ARRANGEMENTS)}
+    res = ctx.pmap(vwork, items, chunk=1)
+    res.sort(key=lambda r: (vorder[r[0][0]], aorder[r[0][1]], r[0][2], r[0][3]))
+    for _item, out in res:
+        for surface, cls, failed, det, rep in out:
+            clause = f"C02.verbatim.{surface}"
+            ctx.acc.member(clause, cls, failed)
+            if failed:
+                ctx.acc.violation(clause, cls, det, rep)
+    ctx.extra["verbatim_templates"] = len(VERBATIM_TEMPLATES)
+    ctx.extra["verbatim_arrangements"] = sorted({i[1] for i in items})
+    ctx.extra["verbatim_work_items"] = len(items)
+    ctx.extra["verbatim_histories_by_length"] = {
+        str(n): sum(1 for i in items for h in i[4] if len(h) == n) for n in (2, 3)
+    }
+
+
 def run(ctx: core.Ctx):
     ctx.rule = (
         "every statement template x every case re-spelling of its foldable tokens (quick: 4 whole-statement forms + "
@@ -1311,7 +1547,10 @@ def run(ctx: core.Ctx):
         "the raw-DuckDB digest proves pristine before each use) and followed by the fixed postlude; compared facet by "
         "facet with the all-lower spelling; reporting sweep over every name-carrying surface in whole-statement "
         "spellings. non-trivial = distinct executed spelling whose text differs from the reference spelling of its "
-        "template (the reference itself is the trivial case)"
+        "template (the reference itself is the trivial case). Plus C02.verbatim: every verbatim template x every "
+        "ordered pair (thorough: + triples) of different letter-case spellings of its quoted aliases, executed in one "
+        "session x every cursor arrangement; after every statement every reporting surface is compared with the "
+        "spelling that statement writes (each history is a non-trivial case)"
     )
     ctx.assumptions = [
         "sqlglot's Snowflake tokenizer finds token boundaries and literal kinds correctly (selftest/test_c02.py "
@@ -1380,6 +1619,7 @@ def run(ctx: core.Ctx):
         tokens[tpl.id] = [len(R.foldable(c["toks"])), len(R.names(c["toks"]))]
         ok_or_err = by_tpl[tpl.id][c["ref"]][2][0]
         ctx.acc.add("reference_status", (tpl.id, ok_or_err))
+    run_verbatim(ctx)
     ctx.exhaustive = True
     ctx.extra["templates"] = len(active)
     ctx.extra["templates_by_session_flavour"] = {f: sum(1 for t in active if t.session == f) for f in SESSIONS}
@@ -1403,8 +1643,37 @@ def _report(acc, surface, cls, failed, det, tid, text):
         acc.violation(clause, cls, dict(det, template=tid, sql=text), {"template": tid, "sql": text, "sweep": True})
 
 
+def replay_verbatim(payload):
+    import fakesnow.instance as inst
+
+    r = payload["replay"]
+    vt = VTPL[r["template"]]
+    hist = tuple(tuple(f) for f in r["history"])
+    surface = payload.get("clause", "").rsplit(".", 1)[-1]
+    fs = inst.FakeSnow()
+    cur = fs.connect(database=DB, schema=SCHEMA).cursor()
+    for p, _fx in PRELUDE:
+        cur.execute(p)
+    print("template   :", vt.id, "| cursors:", r["arrangement"], "| between:", r["between"], "| rest:", r["rest"])
+    bad = False
+    for n, sql, exp, obs in vhistory(fs, vt, r["arrangement"], r["between"], r["rest"], hist):
+        print(f"statement {n + 1}: {sql}")
+        print(f"  as written : {exp}")
+        for sf in VSURFACES:
+            if obs.get(sf) is None:
+                continue
+            wrong = obs[sf] != exp and _same_ci(obs[sf], exp)
+            print(f"  {sf:<11}: {obs[sf]}{'   <-- not as written' if wrong else ''}")
+            if wrong and sf == surface and vclass(vt, r["arrangement"], r["between"], n, hist) == payload.get("class"):
+                bad = True
+    print("verdict:", "VIOLATION reproduced" if bad else "ok")
+    return bad
+
+
 def replay(payload):
     r = payload["replay"]
+    if r.get("verbatim"):
+        return replay_verbatim(payload)
     tid, text = r["template"], r["sql"]
     tpl = TPL[tid]
     ref_text = r.get("reference_sql") or R.render(R.lex(tpl.sql), "l")
